@@ -82,8 +82,13 @@ def run(ctx):
             tmin = 10 ** ctx.rng.uniform(-6, -1)
         if ctx.rng.random() < 0.3:
             tmin = ctx.rng.randint(1, 50)      # as typed in a parameter file: `minimum_transmissivity_m2_d: 7`
+        tmin_arg = tmin
+        if ctx.rng.random() < 0.25:
+            # the minimum as it comes out of np.loadtxt on a one-number file, or as a slot of an optimiser's vector
+            vec = np.array([123.0, float(tmin), 456.0])
+            tmin_arg = ctx.rng.choice([np.array(float(tmin)), vec[1:2].reshape(()), np.float64(tmin)])
         try:
-            T = tm.SplineTransmissivity(list(zs), list(ks), tmin)
+            T = tm.SplineTransmissivity(list(zs), list(ks), tmin_arg)
         except Exception as e:  # noqa
             ctx.case(("c15", tuple(zs), tuple(ks)), True)
             ctx.violation("impl-violation", "c15Holds", {"input": {"zeta_knots_mm": zs, "K_knots_km_d": ks, "minimum_transmissivity_m2_d": tmin},
@@ -146,7 +151,16 @@ def run(ctx):
                        "closed_form": mv}
             if wit:
                 break
+        if wit is None and tmin_arg is not tmin and float(tmin_arg) != float(tmin):
+            wit = {"why": "evaluating the function changed the minimum transmissivity the caller passed in",
+                   "passed": float(tmin), "now": float(tmin_arg)}
         if wit is None:
+            again = [float(T(z)) for z in levels]
+            if again != scal:
+                k_ = next(i for i, (a_, b_) in enumerate(zip(again, scal)) if a_ != b_)
+                wit = {"why": "the same level evaluated twice gives two values", "level": levels[k_], "first": scal[k_], "again": again[k_]}
+        if wit is None and not isinstance(tmin_arg, np.ndarray):
+            # (with a minimum passed as an array the value returned below the lowest knot IS the caller's own array)
             # what a caller does with a returned value must not change the function: in-place arithmetic on the result
             # (unit conversion `T /= 86400`, an accumulator started from a value) and evaluation again
             for z in (lo - 5.0, lo, levels[len(levels) // 2]):
